@@ -30,6 +30,7 @@ mod rx_walk;
 mod rx_bytes;
 mod rx_restrace;
 mod rx_storetrace;
+mod rx_system;
 
 fn main() {
     let args: Vec<String> = std::env::args().collect();
@@ -64,6 +65,7 @@ fn main() {
         "bytes" => rx_bytes::run(&args[2], &args[3], &opts),
         "restrace" => rx_restrace::run(&args[2], &args[3], &opts),
         "storetrace" => rx_storetrace::run(&args[2], &args[3], &opts),
+        "system" => rx_system::run(&args[2], &args[3], &opts),
         "cache" => rx_cache::run(&args[2], &args[3], &opts),
         "widths" => rx_font::run_widths(&args[2], &args[3], &opts),
         "cmap" => rx_font::run_cmap(&args[2], &args[3], &opts),
